@@ -852,3 +852,255 @@ def probe_c09(ctx, pf):
         if not np.array_equal(before[0], v._value) or any(not np.array_equal(x, np.array(getattr(v.BCs, s).c)) for x, s in zip(before[1], ("left", "right"))):
             ctx.violation(f"c09:{cname}:copy-independent", f"{cname}: modifying a copy changed the original", L)
     return n
+
+
+# ------------------------------------------------------------------ C14
+import operator as _op
+BINOPS = [("add", _op.add), ("sub", _op.sub), ("mul", _op.mul), ("truediv", _op.truediv), ("pow", _op.pow),
+          ("gt", _op.gt), ("ge", _op.ge), ("lt", _op.lt), ("le", _op.le), ("and", _op.and_), ("or", _op.or_)]
+NPREF = {"add": np.add, "sub": np.subtract, "mul": np.multiply, "truediv": np.divide, "pow": np.power, "gt": np.greater,
+         "ge": np.greater_equal, "lt": np.less, "le": np.less_equal, "and": np.logical_and, "or": np.logical_or}
+
+
+def _cell_arrays(v):
+    out = [("value", v._value)]
+    for ax in range(3):
+        for s in SIDES[ax]:
+            f = getattr(v.BCs, s)
+            out += [(f"{s}.a", f._a), (f"{s}.b", f._b), (f"{s}.c", f._c)]
+    return out
+
+
+def _face_arrays(v):
+    return [("x", v._xvalue), ("y", v._yvalue), ("z", v._zvalue)]
+
+
+def _snap(arrs):
+    return [np.array(a, copy=True) for _, a in arrs]
+
+
+def _same(snaps, arrs):
+    return all(np.array_equal(s, np.asarray(a), equal_nan=True) for s, (_, a) in zip(snaps, arrs))
+
+
+def _aliases(res_arrs, op_arrs):
+    for n1, a in res_arrs:
+        for n2, b in op_arrs:
+            if a.size and b.size and np.shares_memory(a, b):
+                return f"{n1} aliases operand {n2}"
+    return None
+
+
+def probe_c14(ctx, pf):
+    from suites.bcsuite import set_random_bcs
+    n = 0
+    for rng, cname, fs, mesh in cases(ctx, pf, "c14", reps_q=2, reps_t=10, nmin=2):
+        d = len(mesh.dims)
+        L = lab(cname, fs)
+        def newcell():
+            BC, _, _ = set_random_bcs(rng, mesh, cname, allow_periodic=False)
+            return pf.CellVariable(mesh, np.abs(gen.cell_array(rng, mesh))[interior_slices(d)] + 0.5, BC)
+        def newface():
+            return pf.FaceVariable(mesh, *[np.abs(a) + 0.5 for a in gen.face_arrays(rng, mesh)])
+        for kind, mk, arrs_of in (("cell", newcell, _cell_arrays), ("face", newface, _face_arrays)):
+            for opname, fn in BINOPS:
+                A, B = mk(), mk()
+                scal = 1.5
+                arr = (np.abs(gen.cell_array(rng, mesh))[interior_slices(d)] + 0.25) if kind == "cell" else None
+                combos = [("var,var", A, B), ("var,scalar", A, scal), ("scalar,var", scal, A)]
+                if kind == "cell":
+                    combos.append(("var,ndarray", A, arr))
+                for cn, x, y in combos:
+                    if opname in ("gt", "ge", "lt", "le") and cn == "scalar,var":
+                        pass  # python swaps to the mirrored comparison
+                    ops = [o for o in (x, y) if hasattr(o, "domain")]
+                    op_arrs = [pair for o in ops for pair in arrs_of(o)]
+                    before = _snap(op_arrs)
+                    try:
+                        with np.errstate(all="ignore"):
+                            r = fn(x, y)
+                    except Exception as ex:
+                        ctx.violation(f"c14:{kind}:{opname}:{cn}:raise", f"{kind} variable: operator {opname} with operands ({cn}) raised {type(ex).__name__}: {ex}", dict(L, op=opname, operands=cn))
+                        continue
+                    n += 1
+                    tag = f"c14:{kind}:{opname}:{cn}"
+                    if type(r) is not type(ops[0]):
+                        ctx.violation(tag + ":type", f"{kind}: {opname}({cn}) returned {type(r).__name__}", dict(L, op=opname, operands=cn)); continue
+                    if not _same(before, op_arrs):
+                        ctx.violation(tag + ":mutates", f"{kind}: {opname}({cn}) modified an operand", dict(L, op=opname, operands=cn))
+                    al = _aliases(arrs_of(r), op_arrs)
+                    if al:
+                        ctx.violation(tag + ":alias", f"{kind}: result of {opname}({cn}): {al}", dict(L, op=opname, operands=cn))
+                    def inner(o):
+                        if kind == "cell":
+                            return np.asarray(o.value) if hasattr(o, "domain") else o
+                        return o
+                    with np.errstate(all="ignore"):
+                        if kind == "cell":
+                            want = NPREF[opname](inner(x), inner(y)).astype(float)
+                            got = np.asarray(r.value, dtype=float)
+                            ok = np.allclose(got, want, rtol=1e-13, atol=0, equal_nan=True)
+                        else:
+                            ok = True
+                            for comp in ("_xvalue", "_yvalue", "_zvalue")[:d]:
+                                gx = getattr(x, comp) if hasattr(x, "domain") else x
+                                gy = getattr(y, comp) if hasattr(y, "domain") else y
+                                ok = ok and np.allclose(np.asarray(getattr(r, comp), dtype=float), NPREF[opname](gx, gy).astype(float), rtol=1e-13, atol=0, equal_nan=True)
+                    if not ok:
+                        ctx.violation(tag + ":values", f"{kind}: {opname}({cn}) is not the elementwise numpy result on interior values", dict(L, op=opname, operands=cn))
+                    if kind == "cell":
+                        left = ops[0]
+                        if r.BCs is left.BCs:
+                            ctx.violation(tag + ":bcs-shared", f"cell: result of {opname}({cn}) shares the BoundaryConditions object of its operand", dict(L, op=opname, operands=cn))
+                        for ax in range(d):
+                            for s in SIDES[ax]:
+                                f1, f2 = getattr(r.BCs, s), getattr(left.BCs, s)
+                                if not (np.array_equal(f1.a, f2.a) and np.array_equal(f1.b, f2.b) and np.array_equal(f1.c, f2.c) and f1.periodic == f2.periodic):
+                                    ctx.violation(tag + ":bcs-values", f"cell: result of {opname}({cn}) does not carry the boundary conditions of its left-most variable operand", dict(L, op=opname, operands=cn))
+                        with np.errstate(all="ignore"):
+                            fresh = pf.boundary.cellValuesWithBoundaries(np.array(r.value), r.BCs)
+                        if not np.allclose(np.asarray(r._value), fresh, rtol=1e-12, atol=1e-12, equal_nan=True):
+                            ctx.violation(tag + ":ghost", f"cell: boundary values of the result of {opname}({cn}) are not consistent with its boundary conditions", dict(L, op=opname, operands=cn))
+                        # later modification of the result does not reach the operands, and vice versa
+                        r.value = np.asarray(r.value) * 0 + 7.0; r.BCs.left.c = 99.0
+                        if not _same(before, op_arrs):
+                            ctx.violation(tag + ":later-mod", f"cell: modifying the result of {opname}({cn}) changed an operand", dict(L, op=opname, operands=cn))
+                        rs = _snap(_cell_arrays(r))
+                        ops[0].value = np.asarray(ops[0].value) * 0 + 3.0; ops[0].BCs.right.c = -5.0
+                        if not _same(rs, _cell_arrays(r)):
+                            ctx.violation(tag + ":later-mod2", f"cell: modifying an operand of {opname}({cn}) changed the earlier result", dict(L, op=opname, operands=cn))
+            # unary, funceval / faceeval, copy
+            A = mk(); op_arrs = arrs_of(A); before = _snap(op_arrs)
+            with np.errstate(all="ignore"):
+                results = [("neg", -A), ("abs", abs(A))]
+                if kind == "cell":
+                    results += [("funceval", pf.funceval(lambda x: x * 2.0, A)), ("celleval", pf.celleval(lambda x, y: x + y, A, mk())), ("copy", A.copy())]
+                else:
+                    results += [("faceeval", pf.faceeval(lambda x: x * 2.0, A))]
+            for nm, r in results:
+                n += 1
+                al = _aliases(arrs_of(r), op_arrs)
+                if al or not _same(before, op_arrs):
+                    ctx.violation(f"c14:{kind}:{nm}", f"{kind}: {nm} {'modified its operand' if not al else al}", dict(L, op=nm))
+            if kind == "cell":
+                c = A.copy()
+                if not (np.array_equal(c._value, A._value) and c.BCs is not A.BCs):
+                    ctx.violation("c14:cell:copy-equal", "copy() is not an equal, independent variable", L)
+        # expression trees
+        a, b, c3 = newcell(), newcell(), newcell()
+        arrs = _cell_arrays(a) + _cell_arrays(b) + _cell_arrays(c3); before = _snap(arrs)
+        with np.errstate(all="ignore"):
+            r = (2.0 * a + b) * c3 - abs(a) / (1.0 + b ** 2.0)
+        n += 1
+        want = (2.0 * np.asarray(a.value) + np.asarray(b.value)) * np.asarray(c3.value) - np.abs(a.value) / (1.0 + np.asarray(b.value) ** 2.0)
+        if not np.allclose(r.value, want, rtol=1e-12) or not _same(before, arrs) or _aliases(_cell_arrays(r), arrs):
+            ctx.violation(f"c14:{cname}:tree", f"{cname}: expression tree result wrong / operands modified / aliasing", L)
+        for ax in range(d):
+            for s in SIDES[ax]:
+                if not np.array_equal(getattr(r.BCs, s).c, getattr(a.BCs, s).c):
+                    ctx.violation(f"c14:{cname}:tree-bcs", f"{cname}: expression tree result does not carry the boundary conditions of its left-most variable operand", L)
+    return n
+
+
+# ------------------------------------------------------------------ C15
+def _mesh_arrays(mesh):
+    out = []
+    for nm in ("cellsize", "cellcenters", "facecenters"):
+        p = getattr(mesh, nm)
+        out += [(f"{nm}._x", p._x), (f"{nm}._y", p._y), (f"{nm}._z", p._z)]
+    out.append(("dims", mesh.dims))
+    return out
+
+
+def _result_arrays(r):
+    """all ndarrays reachable from a builder result (matrices, vectors, variables, tuples)"""
+    out = []
+    def walk(x, nm):
+        if isinstance(x, tuple) or isinstance(x, list):
+            for i, y in enumerate(x): walk(y, f"{nm}[{i}]")
+        elif hasattr(x, "tocsr"):
+            c = x.tocsr(); out.extend([(nm + ".data", c.data), (nm + ".indices", c.indices)])
+        elif isinstance(x, np.ndarray):
+            out.append((nm, x))
+        elif hasattr(x, "_xvalue"):
+            out.extend([(nm + "._xvalue", np.asarray(x._xvalue)), (nm + "._yvalue", np.asarray(x._yvalue)), (nm + "._zvalue", np.asarray(x._zvalue))])
+        elif hasattr(x, "_value"):
+            out.append((nm + "._value", np.asarray(x._value)))
+            out.extend((nm + "." + a, b) for a, b in _cell_arrays(x)[1:])
+    walk(r, "result")
+    return out
+
+
+def _bits(r):
+    return [np.array(a, copy=True) for _, a in _result_arrays(r)]
+
+
+def probe_c15(ctx, pf):
+    from suites.bcsuite import set_random_bcs
+    n = 0
+    for rng, cname, fs, mesh in cases(ctx, pf, "c15", reps_q=2, reps_t=10, nmin=2):
+        d = len(mesh.dims)
+        L = lab(cname, fs)
+        BC, _, _ = set_random_bcs(rng, mesh, cname, allow_periodic=False)
+        phi = pf.CellVariable(mesh, np.abs(gen.cell_array(rng, mesh))[interior_slices(d)] + 0.5, BC)
+        D = pf.FaceVariable(mesh, *[np.abs(a) + 0.25 for a in gen.face_arrays(rng, mesh)])
+        u = pf.FaceVariable(mesh, *gen.face_arrays(rng, mesh))
+        uup = pf.FaceVariable(mesh, *[np.where(a >= 0, 1.0, -1.0) if a.size else a for a in (u._xvalue, u._yvalue, u._zvalue)])
+        beta = pf.CellVariable(mesh, np.abs(gen.cell_array(rng, mesh))[interior_slices(d)] + 0.5)
+        FL = pf.fluxLimiter("Koren")
+        ncell = int(np.prod(full_shape(mesh)))
+        calls = [("diffusionTerm", lambda: pf.diffusionTerm(D)), ("convectionTerm", lambda: pf.convectionTerm(u)),
+                 ("convectionUpwindTerm", lambda: pf.convectionUpwindTerm(u)), ("convectionUpwindTerm(u,u_upwind)", lambda: pf.convectionUpwindTerm(u, uup)),
+                 ("convectionTVDupwindRHSTerm", lambda: pf.convectionTVDupwindRHSTerm(u, phi, FL)),
+                 ("divergenceTerm", lambda: pf.divergenceTerm(D)), ("gradientTerm", lambda: pf.gradientTerm(phi)),
+                 ("linearMean", lambda: pf.linearMean(phi)), ("arithmeticMean", lambda: pf.arithmeticMean(phi)),
+                 ("geometricMean", lambda: pf.geometricMean(phi)), ("harmonicMean", lambda: pf.harmonicMean(phi)),
+                 ("upwindMean", lambda: pf.upwindMean(phi, u)), ("linearSourceTerm", lambda: pf.linearSourceTerm(beta)),
+                 ("constantSourceTerm", lambda: pf.constantSourceTerm(beta)), ("transientTerm", lambda: pf.transientTerm(phi, 0.5, beta)),
+                 ("transientTerm(scalar alpha)", lambda: pf.transientTerm(phi, 0.5, 2.0)),
+                 ("boundaryConditionsTerm", lambda: pf.boundaryConditionsTerm(phi.BCs)),
+                 ("cellValuesWithBoundaries", lambda: pf.boundary.cellValuesWithBoundaries(np.array(phi.value), phi.BCs)),
+                 ("cellLocations", lambda: pf.cellLocations(mesh)), ("faceLocations", lambda: pf.faceLocations(mesh)),
+                 ("cellvolume", lambda: mesh.cellvolume), ("plotprofile", lambda: phi.plotprofile()),
+                 ("domainIntegral", lambda: np.asarray(phi.domainIntegral())),
+                 ("solveMatrixPDE", lambda: pf.solveMatrixPDE(mesh, pf.boundaryConditionsTerm(phi.BCs)[0] + pf.linearSourceTerm(beta), np.ones(ncell))),
+                 ("solveExplicitPDE", lambda: pf.solveExplicitPDE(phi, 0.01, np.ones(ncell)))]
+        inputs = _mesh_arrays(mesh) + _cell_arrays(phi) + _cell_arrays(beta) + _face_arrays(D) + _face_arrays(u) + _face_arrays(uup)
+        for nm, call in calls:
+            before = _snap(inputs)
+            try:
+                with np.errstate(all="ignore"):
+                    r1 = call(); b1 = _bits(r1)
+                    r2 = call(); b2 = _bits(r2)
+            except Exception as ex:
+                ctx.violation(f"c15:{cname}:{nm}:raise", f"{cname}: {nm} raised {type(ex).__name__}: {ex}", dict(L, call=nm)); continue
+            n += 1
+            if not _same(before, inputs):
+                bad = [k for (k, a), s in zip(inputs, before) if not np.array_equal(s, np.asarray(a), equal_nan=True)]
+                ctx.violation(f"c15:{cname}:{nm}:mutates", f"{cname}: {nm} modified its inputs: {bad[:4]}", dict(L, call=nm, modified=bad[:8]))
+            if len(b1) != len(b2) or any(x.shape != y.shape or x.tobytes() != y.tobytes() for x, y in zip(b1, b2)):
+                ctx.violation(f"c15:{cname}:{nm}:nondeterministic", f"{cname}: two calls of {nm} with equal inputs are not bit-identical", dict(L, call=nm))
+            al = _aliases(_result_arrays(r1), _mesh_arrays(mesh))
+            if al:
+                ctx.violation(f"c15:{cname}:{nm}:alias-grid", f"{cname}: result of {nm} aliases grid storage ({al})", dict(L, call=nm))
+            if nm not in ("solveExplicitPDE",):
+                al = _aliases(_result_arrays(r1), _cell_arrays(phi) + _cell_arrays(beta) + _face_arrays(D) + _face_arrays(u))
+                if al:
+                    ctx.violation(f"c15:{cname}:{nm}:alias-input", f"{cname}: result of {nm} aliases an input array ({al})", dict(L, call=nm))
+        # solvePDE modifies only its solution variable; terms are reusable in a time loop
+        x = pf.CellVariable(mesh, np.array(phi.value), BC)
+        Md = pf.diffusionTerm(D); Mu = pf.convectionUpwindTerm(u); Mb = pf.linearSourceTerm(beta)
+        terms = [-Md, Mu, Mb]
+        tb = _bits(terms)
+        others = _mesh_arrays(mesh) + _cell_arrays(beta) + _face_arrays(D) + _face_arrays(u)
+        before = _snap(others)
+        with np.errstate(all="ignore"):
+            for step in range(3):
+                pf.solvePDE(x, [pf.transientTerm(x, 0.5, 1.0)] + terms)
+        n += 1
+        if not _same(before, others):
+            ctx.violation(f"c15:{cname}:solvePDE:mutates", f"{cname}: solvePDE modified something other than its solution variable", L)
+        ta = _bits(terms)
+        if any(a.tobytes() != b.tobytes() for a, b in zip(tb, ta)):
+            ctx.violation(f"c15:{cname}:solvePDE:terms", f"{cname}: solvePDE modified the terms it was given (they cannot be reused in a time loop)", L)
+    return n
